@@ -174,6 +174,7 @@ def run_shape(shape, tier):
         out["status"], out["detail"] = UNDECIDED, res.skipped
     else:
         bad = sqlprogs.validate_model(prog, shape["params"])
+        out["counters"] = {"programs whose SQL model evaluation was compared with a real SQLite run": 1}
         if bad:
             out["status"], out["detail"] = "harness-error", "SQL model disagrees with SQLite: " + bad
         else:
